@@ -2,6 +2,9 @@
 #include "hx_amgcl.hpp"
 #include <amgcl/detail/spgemm.hpp>
 #include <amgcl/adapter/block_matrix.hpp>
+#include <amgcl/value_type/static_matrix.hpp>
+#include <amgcl/value_type/complex.hpp>
+#include <complex>
 using hx::scalar; using hx::var; using hx::Pattern; using hx::SCrs;
 namespace be = amgcl::backend; typedef hx::ACrs<scalar> M; typedef std::vector<std::vector<scalar>> Dense;
 static Dense dense_of(const M &A) { Dense d(A.nrows,std::vector<scalar>(A.ncols,scalar(0))); for (size_t i=0;i<A.nrows;++i) for (ptrdiff_t k=A.ptr[i];k<A.ptr[i+1];++k) d[i][A.col[k]]=d[i][A.col[k]]+A.val[k]; return d; }
@@ -9,6 +12,19 @@ static std::vector<scalar> flat(const Dense &d) { std::vector<scalar> v; for (au
 static bool well_formed(const M &A, bool unique, bool sorted) { if (!A.ptr || A.ptr[0]!=0) return false; for (size_t i=0;i<A.nrows;++i) { if (A.ptr[i+1]<A.ptr[i]) return false; std::set<ptrdiff_t> seen; for (ptrdiff_t k=A.ptr[i];k<A.ptr[i+1];++k) { if (A.col[k]<0 || (size_t)A.col[k]>=A.ncols) return false; if (unique && !seen.insert(A.col[k]).second) return false; if (sorted && k>A.ptr[i] && A.col[k-1]>=A.col[k]) return false; } } return (size_t)A.ptr[A.nrows]==A.nnz || A.nnz==0 || true; }
 // unsorted variant of a pattern: reverse the entries of every row
 static Pattern reversed(const Pattern &p) { Pattern q=p; for (int i=0;i<p.n;++i) std::reverse(q.col.begin()+p.ptr[i], q.col.begin()+p.ptr[i+1]); q.name=p.name+"r"; return q; }
+
+// transpose of block-valued and complex-valued matrices is the CONJUGATE transpose: block (j,i) of the result is the adjoint of block (i,j)
+typedef amgcl::static_matrix<scalar,2,2> B2; typedef std::complex<scalar> CX;
+static void transpose_block_case(const Pattern &p) { hx::run_case("transpose-block2x2/"+p.name,[&]() { hx::Crs<B2> A; A.n=p.n; A.m=p.m; A.ptr=p.ptr; A.col=p.col;
+    for (int i=0;i<p.n;++i) for (ptrdiff_t k=p.ptr[i];k<p.ptr[i+1];++k) { B2 b; for (int r=0;r<2;++r) for (int c=0;c<2;++c) b(r,c)=var("a_"+std::to_string(i)+"_"+std::to_string(p.col[k])+"_"+std::to_string(r)+std::to_string(c), 1.0+0.5*r-0.25*c+i-0.125*p.col[k]); A.val.push_back(b); }
+    auto Am=hx::to_amgcl(A); auto T=be::transpose(*Am); bool shape = T->nrows==(size_t)p.m && T->ncols==(size_t)p.n && T->ptr[0]==0 && T->ptr[T->nrows]==(ptrdiff_t)p.nnz(); hx::require("block transpose: shape and entry count", shape); if (!shape) return;
+    bool ok=true; size_t cnt=0; for (size_t i=0;i<T->nrows;++i) for (ptrdiff_t k=T->ptr[i];k<T->ptr[i+1];++k) { ptrdiff_t j=T->col[k]; ptrdiff_t src=-1; for (ptrdiff_t q=p.ptr[j];q<p.ptr[j+1];++q) if (p.col[q]==(int)i) src=q; if (src<0) { ok=false; continue; } ++cnt; for (int r=0;r<2;++r) for (int c=0;c<2;++c) ok=ok&&hx::same_handle(T->val[k](r,c),A.val[src](c,r)); }
+    hx::require("block transpose: block (j,i) of the result is the transposed block (i,j) (moved without arithmetic)", ok && cnt==(size_t)p.nnz()); }); }
+static void transpose_complex_case(const Pattern &p) { hx::run_case("transpose-complex/"+p.name,[&]() { hx::Crs<CX> A; A.n=p.n; A.m=p.m; A.ptr=p.ptr; A.col=p.col;
+    for (int i=0;i<p.n;++i) for (ptrdiff_t k=p.ptr[i];k<p.ptr[i+1];++k) { std::string nm=std::to_string(i)+"_"+std::to_string(p.col[k]); A.val.push_back(CX(var("re_"+nm,1.0+i-0.25*p.col[k]),var("im_"+nm,0.5-0.125*i+p.col[k]))); }
+    auto Am=hx::to_amgcl(A); auto T=be::transpose(*Am); bool shape = T->nrows==(size_t)p.m && T->ncols==(size_t)p.n && T->ptr[0]==0 && T->ptr[T->nrows]==(ptrdiff_t)p.nnz(); hx::require("complex transpose: shape and entry count", shape); if (!shape) return;
+    std::vector<scalar> l, r; for (size_t i=0;i<T->nrows;++i) for (ptrdiff_t k=T->ptr[i];k<T->ptr[i+1];++k) { ptrdiff_t j=T->col[k]; for (ptrdiff_t q=p.ptr[j];q<p.ptr[j+1];++q) if (p.col[q]==(int)i) { l.push_back(T->val[k].real()); r.push_back(A.val[q].real()); l.push_back(T->val[k].imag()); r.push_back(scalar(0)-A.val[q].imag()); } }
+    hx::require("complex transpose: every entry has a source entry", l.size()==2*(size_t)p.nnz()); hx::prove_eq_vec("complex transpose: t_ji = conj(a_ij)", l, r); }); }
 
 static void transpose_case(const Pattern &p) { hx::run_case("transpose/"+p.name,[&]() { SCrs A=hx::symbolic_matrix(p,"a",false); auto Am=hx::to_amgcl(A); auto T=be::transpose(*Am);
     hx::require("transpose: well-formed CRS of the transposed shape", well_formed(*T,true,false) && T->nrows==(size_t)p.m && T->ncols==(size_t)p.n && T->ptr[T->nrows]==(ptrdiff_t)p.nnz());
@@ -52,7 +68,8 @@ int main(int argc, char **argv) {
     hx::assume_note("row-merge SpGEMM requires row-sorted operands (documented); the thread-count dispatch (>16 threads) itself is not executed, both algorithms are called directly");
     hx::assume_note("power-method spectral radius estimate vs largest singular value: not decided (iterative, irrational)");
     std::vector<Pattern> p22, p23, p32, p33; for (uint64_t k=0;k<16;++k) p22.push_back(hx::mask_pattern(2,2,k,false)); for (uint64_t k=0;k<64;++k) { p23.push_back(hx::mask_pattern(2,3,k,false)); p32.push_back(hx::mask_pattern(3,2,k,false)); } for (uint64_t k=0;k<512;++k) p33.push_back(hx::mask_pattern(3,3,k,false));
-    for (auto &p : p22) transpose_case(p); for (auto &p : p23) transpose_case(p); for (auto &p : p33) if (T || rng.below(8)==0) transpose_case(p); for (int k=0;k<(T?20:6);++k) transpose_case(reversed(hx::random_pattern(2+rng.below(4),2+rng.below(4),rng,2,false)));
+    for (auto &p : p22) { transpose_case(p); transpose_block_case(p); transpose_complex_case(p); } for (size_t k=0;k<p23.size();++k) if (T || k%4==1) { transpose_block_case(p23[k]); transpose_complex_case(p23[k]); }
+    for (auto &p : p23) transpose_case(p); for (auto &p : p33) if (T || rng.below(8)==0) transpose_case(p); for (int k=0;k<(T?20:6);++k) transpose_case(reversed(hx::random_pattern(2+rng.below(4),2+rng.below(4),rng,2,false)));
     for (auto &a : p22) for (auto &b : p22) product_case(a,b,(a.nnz()+b.nnz())%2);                      // exhaustive 2x2 * 2x2
     for (int k=0;k<(T?400:60);++k) { const Pattern &a=p23[rng.below(64)], &b=p32[rng.below(64)]; product_case(a,b,k%2); product_case(b,a,k%2); }
     for (int k=0;k<(T?300:40);++k) product_case(p33[rng.below(512)],p33[rng.below(512)],k%2);
